@@ -12,14 +12,15 @@ error outcomes, eq verdicts on perturbed copies, float32 rounding on raw floats,
 from lib import *  # noqa
 import gen
 import pickle, types, contextlib, io
+import c09p
 from koala.lattice import Lattice, LatticeException, Plaquette, cut_boundaries, permute_vertices
 from koala import example_graphs as eg
 from koala import graph_color, graph_utils, hamiltonian, phase_space, plotting, chern_number, voronization
 from koala import flux_finder as ff
 
-DRIVERS = ("c09",)
-MODEL_TARGETS = ["Model/Pickle.vo"]
-TARGETS = ["Proofs/PickleFacts.vo"]
+DRIVERS = ("c09", "c09p")
+MODEL_TARGETS = ["Model/Pickle.vo", "Model/Lattice.vo", "Proofs/PredicateStableDefs.vo"]   # c09p is extracted from the definitions-only PredicateStableDefs
+TARGETS = ["Proofs/PickleFacts.vo", "Proofs/PredicateStable.vo", "Proofs/PredicateStableExamples.vo"]
 TRANSLATORS = ("pickle_dtype",)
 LEVEL = "proof"
 TRUST = [
@@ -30,6 +31,9 @@ TRUST = [
     "the implementation evaluates sqrt and the norm in float64; verdicts within 1e-9 relative of the tolerance are counted and skipped",
     "'same result under every other operation' is S only: outcomes of ~60 public calls compared on original and restored, ints exactly, floats to 2e-5; a difference counts only if "
     "five single-precision perturbations of the original leave the outcome unchanged (otherwise counted as float32-nongeneric)",
+    "'identical plaquettes and adjacency tables': C09_roundtrip_tables is about two lattices of the shared model coq/Model/Lattice.v (tied to lattice.py by C01/C02's K); "
+    "its hypothesis preds_agree is evaluated per generated lattice (V <= 200) by the extracted driver c09p on the exactly serialised original and restored arrays "
+    "(harness/c09p.py); the passage from Model/Pickle.v's rational positions to scaled integers is done by the harness, not by a theorem",
 ]
 ASSUMPTIONS = ["finite positions whose float32 cast does not overflow; indices address existing vertices; one crossing row per edge",
                "no subclass of Lattice (isinstance asymmetry is outside the model)"]
@@ -1012,6 +1016,7 @@ def run(ctx):
         check_crossing_range(ctx, c)
     check_backward_files(ctx)
     evaluate(ctx, lattice_cases(tier, ctx.seed), tier)
+    c09p.check_preds(ctx, lattice_cases(tier, ctx.seed))    # hypothesis of C09_roundtrip_tables on original vs restored
     evaluate(ctx, huge_cases(tier), tier, with_pairs=False)
     if tier != "quick":
         xs = r32_inputs(np.random.default_rng([ctx.seed, 34]), 60)
@@ -1081,5 +1086,7 @@ def replay(ctx, payload):
         check_crossing_range(ctx, c["case"])
     elif k == "files":
         check_backward_files(ctx)
+    elif k == "preds":
+        c09p.check_preds(ctx, [c["case"]])
     else:
         raise ValueError(f"unknown replay kind {k}")
